@@ -22,8 +22,8 @@ RULE = ("random removal-enabled DynGraphs without self-loops (interval spans, se
         "the histogram of gaps between consecutive events of the actual stream restricted accordingly, with total "
         "mass #events-1 and weighted sum last-first. Zero-denominator cases are skipped and counted. distinct = "
         "distinct (model state, statistic).")
-MIN = {"quick": {"coverage": 3000, "density": 2000, "node_density": 5000, "edge_contribution": 5000,
-                 "inter_event(global)": 3000, "inter_event(node)": 5000, "inter_out_event(node)": 1000},
+MIN = {"quick": {"coverage": 1500, "density": 1000, "node_density": 2500, "edge_contribution": 2000,
+                 "inter_event(global)": 1500, "inter_event(node)": 2500, "inter_out_event(node)": 500},
        "thorough": {"coverage": 60000, "density": 40000, "node_density": 100000, "edge_contribution": 100000,
                     "inter_event(global)": 60000, "inter_event(node)": 100000, "inter_out_event(node)": 20000}}
 REQUIRED_CELLS = {t: ("state:multi-run", "state:interval", "state:isolated", "state:node-disappears",
